@@ -169,7 +169,7 @@ def _events(rng, thorough):
                 evs.append(dict(evs[-1], moved=1, pcls=evs[-1]["pcls"] + "/moved_after_normals_were_stored", npseed=rng.randrange(10 ** 6)))
     for order in (0, 1, 2, 3, 4):          # order 0: a single control point, still only defined on [0, 1]
         for d in (2, 3):
-            for _ in range(4 if thorough else 2):
+            for _ in range(12 if thorough else 2):
                 Pc = [[rng.randint(-3, 3) for _ in range(d)] for _ in range(order + 1)]
                 for t in ([0, 1], [1, 1], [1, 2], [1, 3], [3, 4], [5, 12], [-1, 4], [5, 4], [1000000001, 1000000000], [-1, 1000000000]):      # the last two: outside by 1e-9
                     evs.append({"op": "bezier_curve", "P": Pc, "t": t})
